@@ -198,7 +198,8 @@ def run(res, tier, seed, shard, nshards):
                 if (i + shard) % nshards == 0:
                     reuse_case(res, W, rng, ks)
 
-    H.in_sim(scen, watchdog=3000)
+    with H.ambient((seed, shard, "C01"), res, dims=("multithread", "tls", "dispatcher", "high_fd")):
+        H.in_sim(scen, watchdog=3000)
     W.enableTrace(False)
 
 
